@@ -251,12 +251,26 @@ def CmpOp.compare (c : CmpOp) (lhs rhs : Int) : Bool :=
 /-- commas between the n elements (none for an empty container) and the two brackets -/
 def lenContainer (n : Nat) : Int := (if n > 0 then (n : Int) - 1 else 0) + 2
 
+/-- bytes one byte of a string takes in the event's JSON text (the harness writes `\"`, `\\`,
+    `\n`, `\r`, `\t`, `\u00XX` for the other control bytes and everything else raw) -/
+def escByte (c : UInt8) : Nat :=
+  if c = 34 ∨ c = 92 ∨ c = 10 ∨ c = 13 ∨ c = 9 then 2 else if c.toNat < 32 then 6 else 1
+
+/-- length of the string's raw JSON text without the quotes -/
+def escLen : Bytes → Nat
+  | [] => 0
+  | c :: cs => escByte c + escLen cs
+
 mutual
-  /-- `getNodeBytesSize` (nested strings and keys are assumed to need no JSON escaping) -/
+  /-- `getNodeBytesSize` on an event no earlier check has touched: a nested string still in
+      insane-json's "escaped" state counts `len(AsEscapedString())` = raw text with quotes, a
+      string without escapes `len(AsString()) + 2` — both are `escLen s + 2`; a field NAME always
+      counts its decoded length (`AsFields` unescapes names). `Model/DoIfSt.lean` has the version
+      that knows which strings an earlier check unescaped. -/
   def bytesSize : JTree → Int
     | .arr xs => sizeList xs + lenContainer xs.length
     | .obj kvs => sizeFields kvs + lenContainer kvs.length
-    | .str s => (s.length : Int) + 2
+    | .str s => (escLen s : Int) + 2
     | .null => 4
     | .bool true => 4
     | .bool false => 5
